@@ -113,7 +113,8 @@ type vC13Down struct {
 	zoneEmpty  bool
 	zoneClass  uint16
 	// useful answer to an ECS audience: 0 no ECS option in the response, 1 SCOPE=0 (global),
-	// 2 SCOPE shorter than SOURCE, 3 SCOPE = SOURCE, 4 SCOPE longer than SOURCE (clamped)
+	// 2 SCOPE shorter than SOURCE, 3 SCOPE = SOURCE, 4 SCOPE longer than SOURCE (clamped),
+	// 5 non-zero SCOPE that cannot be interpreted (family and address disagree): kept for the asking audience
 	respScope int
 	// set after the query: the cache filed the answer under an ECS audience
 	storedScoped bool
@@ -167,7 +168,7 @@ func (d vC13Down) String() string {
 		s = append(s, []string{"", "mark:attempt-limit", "mark:probe-limit", "mark:max-recursion", "mark:canceled", "mark:deadline", "mark:work-limit"}[d.marked])
 	}
 	if d.respScope != 0 {
-		s = append(s, []string{"", "answer SCOPE=0", "answer SCOPE<SOURCE", "answer SCOPE=SOURCE", "answer SCOPE>SOURCE"}[d.respScope])
+		s = append(s, []string{"", "answer SCOPE=0", "answer SCOPE<SOURCE", "answer SCOPE=SOURCE", "answer SCOPE>SOURCE", "answer SCOPE uninterpretable"}[d.respScope])
 	}
 	if d.zoneAct {
 		if d.kind == 1 {
@@ -275,7 +276,10 @@ func vC13Serve(c *Cache, ednsH middleware.Handler, k vC13QKey, edns, do, wire bo
 				if a.Is4() {
 					fam = 1
 				}
-				sc := []int{0, 0, src - 8, src, src + 8}[d.respScope]
+				sc := []int{0, 0, src - 8, src, src + 8, src}[d.respScope]
+				if d.respScope == 5 {
+					fam = 3 - fam // the option's family contradicts its address
+				}
 				resp.SetEdns0(1232, false)
 				resp.IsEdns0().Option = append(resp.IsEdns0().Option, &dns.EDNS0_SUBNET{
 					Code: dns.EDNS0SUBNET, Family: fam, SourceNetmask: uint8(src), SourceScope: uint8(sc), Address: net.IP(a.AsSlice()),
@@ -588,7 +592,7 @@ func vC13PipeHistory(r *rand.Rand) map[string]any {
 			if k.scope.IsValid() && k.scope.Bits() >= 16 {
 				// what the authority says about the answer's audience must not matter for
 				// whose failure state the recovery resets: that is the client's audience
-				d.respScope = r.Intn(5)
+				d.respScope = r.Intn(6)
 			}
 		default:
 			d.kind = 2
@@ -1026,7 +1030,7 @@ type vC13PipeCorpusCase struct {
 	Qtype     uint16 `json:"qtype"`
 	CD        bool   `json:"cd"`
 	Scope     string `json:"scope"`      // client ECS source prefix, "" = none
-	RespScope int    `json:"resp_scope"` // 0 none, 1 SCOPE=0, 2 shorter, 3 equal, 4 longer than SOURCE
+	RespScope int    `json:"resp_scope"` // 0 none, 1 SCOPE=0, 2 shorter, 3 equal, 4 longer than SOURCE, 5 uninterpretable
 	Zone      string `json:"zone"`       // the first failure also publishes this zone failure ("" = none)
 	InitS     int    `json:"init_s"`
 	MaxS      int    `json:"max_s"`
